@@ -52,13 +52,14 @@ static void load(tN2kMsg &m, int datalen, const std::string &h) {
 
 struct AddOp { int kind; int len; int fillchar; int support; int lenmode; const char *s; };
 
-static void do_add(tN2kMsg &m, const AddOp &o) {
+// pgm: the UsePgm variant of the call (on this host program memory is ordinary memory: the result must be the same)
+static void do_add(tN2kMsg &m, const AddOp &o, bool pgm = false) {
   switch (o.kind) {
-    case 0: m.AddStr(o.s, o.len, false, (unsigned char)o.fillchar); break;
+    case 0: m.AddStr(o.s, o.len, pgm, (unsigned char)o.fillchar); break;
     case 1: m.AddAISStr(o.s, o.len); break;
     case 2: m.AddVarStr(o.s, o.len, o.support ? tN2kMsg::vss_SupportUnicode : tN2kMsg::vss_ForceASCII,
-                        o.lenmode ? tN2kMsg::vsl_UseCharacters : tN2kMsg::vsl_UseBytes); break;
-    case 3: m.AddVarStr(o.s); break;
+                        o.lenmode ? tN2kMsg::vsl_UseCharacters : tN2kMsg::vsl_UseBytes, pgm); break;
+    case 3: m.AddVarStr(o.s, pgm); break;
   }
 }
 
@@ -66,7 +67,7 @@ static void do_add(tN2kMsg &m, const AddOp &o) {
 static bool add_report(tN2kMsg &a, int fill, const AddOp &o, std::string &out) {
   tN2kMsg b;
   preset(a, fill, 0x55); preset(b, fill, 0xAA);
-  do_add(a, o); do_add(b, o);
+  do_add(a, o); do_add(b, o, true);        // the second run takes the UsePgm path
   if (a.MsgTime != CANARY || b.MsgTime != CANARY) { out = "crash canary"; return false; }
   char tmp[64];
   if (a.DataLen < fill || a.DataLen > tN2kMsg::MaxDataLen || b.DataLen != a.DataLen) { snprintf(tmp, sizeof tmp, "dl %d bad", a.DataLen); out = tmp; return false; }
